@@ -1,2 +1,3 @@
+@generator.setter
 def spec(self, value):
     self.__rng = value
